@@ -65,6 +65,21 @@ CHECKS["C02"] = (
     "DESIGN.md section 4, C02",
 )
 
+CHECKS["C03"] = (
+    "E1-explicit-state",
+    "explicit-state BFS over operation histories of generated spec classes with a state invariant evaluated by an independent structural type reference",
+    "For every class of the grammar family a BFS over histories with the widest alphabet (constructor keywords, dict-to-spec casting, assignment, deletion, scalar and element helpers with index/key/value addressing, nested keyword updates, top-level update/transform, preparers and item preparers returning conforming and non-conforming values; non-conforming values aimed at whole value, element, key, value and nested attribute) is run on the real class; after every transition every managed attribute of every live instance must be missing or conform to its annotation per mc/ref/reftype.py; a rejected non-conforming argument must raise TypeError or ValueError.",
+    "Trusts mc/ref/reftype.py (hand-written per attribute kind); bounded depth and pools; direct mutation of contained containers out of scope.",
+    "DESIGN.md section 4, C03",
+)
+CHECKS["C04"] = (
+    "E1-explicit-state+E2-fault-enumerator",
+    "explicit-state BFS over operation histories with an unchanged-on-raise oracle over all pre-existing roots, plus exhaustive user-callback fault enumeration",
+    "For every class of the grammar family a BFS over histories with the widest alphabet incl. constructor, in-place and copy-on-write helpers, multi-keyword update/transform with the failing keyword second, element helpers, every way of failing named by the property (ill-typed value per position, missing index/key/element, duplicate key, unknown keyword) and, per transition, one re-execution per user-callback invocation (transform, attribute transform, preparer, item preparer, validator, default factory, __post_init__, __post_copy__) with that callback raising; whenever the call raises, the canonical form (structure and aliasing) of receiver, peers, arguments and class defaults must equal the pre-state.",
+    "One open known finding (in-place multi-attribute update/transform); bounded depth and pools; no line-level faults (not in the quantifier).",
+    "DESIGN.md section 4, C04",
+)
+
 ENGINES = [
     {"name": "E1-explicit-state", "path": "mc/common.py, props/*.py (explore)", "serves_properties": [],
      "kind_free_text": "breadth-first explicit-state search over the real transition function; a state is the shortest operation history that reaches it, rebuilt by replay; canonical-form deduplication; lock-step reference model"},
